@@ -178,6 +178,12 @@ class HostKeyTest:
                     s.close()
                     continue
 
+                # The server closed the connection instead of answering (recv_reply() returned None): it presented no host key, so there is nothing to record or rate for this type.
+                if kex_reply is None:
+                    out.v("The server sent no host key for %s." % host_key_type, write_now=True)
+                    s.close()
+                    continue
+
                 hostkey_modulus_size = kex_group.get_hostkey_size()
                 ca_key_type = kex_group.get_ca_type()
                 ca_modulus_size = kex_group.get_ca_size()
